@@ -418,6 +418,23 @@ pub fn run(rep: &Report) -> serde_json::Value {
         composites.push(RefVal::Tuple(vec![RefVal::map(vec![(k2.clone(), RefVal::int(1)), (k1.clone(), RefVal::int(2))])]));
         composites.push(RefVal::map(vec![(k1, RefVal::atom("a")), (k2, RefVal::atom("b")), (RefVal::atom("z"), RefVal::Nil)]));
     }
+    // maps of two keys over every pair of a key alphabet: numbers that are close but not equal (an integer one above a
+    // power of two next to the float of that power), and one value of every kind and shape of term; keys that are
+    // different terms stay two entries, in either wire order, also inside a tuple key
+    {
+        let bigp = |k: u32, d: i64| { let mut digits = vec![0u8; (k / 8) as usize + 1]; digits[(k / 8) as usize] = 1 << (k % 8); let mut v = BigI::from_parts(false, &digits); if d != 0 { v = v.add_small(d); } RefVal::Int(v) };
+        let mut keys: Vec<RefVal> = vec![];
+        for k in [53u32, 63, 64, 100] { keys.push(bigp(k, 0)); keys.push(bigp(k, 1)); keys.push(bigp(k, -1)); keys.push(RefVal::float(2f64.powi(k as i32))); }
+        keys.extend([RefVal::int(0), RefVal::int(-1), RefVal::float(0.5), RefVal::Nil, RefVal::list(vec![RefVal::atom("a")], RefVal::Nil), RefVal::list(vec![RefVal::atom("a")], RefVal::atom("b")),
+            RefVal::list(vec![RefVal::atom("a"), RefVal::atom("b")], RefVal::Nil), RefVal::list(vec![RefVal::int(1)], RefVal::binary(&[1])), RefVal::Tuple(vec![]), RefVal::Tuple(vec![RefVal::Nil]), RefVal::binary(&[]), RefVal::binary(&[1]),
+            RefVal::Bits { bytes: vec![0x80], nbits: 1 }, RefVal::atom(""), RefVal::atom("a"), RefVal::map(vec![]), RefVal::map(vec![(RefVal::Nil, RefVal::Nil)]),
+            RefVal::ExtFun { module: "m".into(), function: "f".into(), arity: BigI::from_i64(1) }, RefVal::ExtFun { module: "m".into(), function: "f".into(), arity: BigI::from_i64(2) }]);
+        for i in 0..keys.len() { for j in 0..keys.len() {
+            if i == j || vcore::refval::erl_cmp(&keys[i], &keys[j]) == vcore::refval::ErlOrd::Equal { continue; }
+            composites.push(RefVal::map(vec![(keys[i].clone(), RefVal::int(1)), (keys[j].clone(), RefVal::int(2))]));
+            if i < j { composites.push(RefVal::map(vec![(RefVal::Tuple(vec![keys[i].clone()]), RefVal::int(1)), (RefVal::Tuple(vec![keys[j].clone()]), RefVal::int(2))])); }
+        } }
+    }
     // maps (and lists) holding two identifiers that differ in exactly one field: no entry may be dropped or merged
     {
         let pid = |id: u32, serial: u32, creation: u32, node: &str| RefVal::Pid { node: node.into(), id, serial, creation };
